@@ -662,6 +662,7 @@ class Engine:
         self.choice_trail = []
         self.clock_last = None
         self.clock_count = 0
+        self.clock_all = []
         self.path_notes = []
         self.fits = {}
         self.ctx_children = {}
